@@ -346,3 +346,43 @@ MUTANTS += [
      'new': "        if method.__name__ == 'enforce' and self.rules:\n"
             "            return method(self, *args, **kwargs)\n" + WRAP},
 ]
+
+EVENT_GATE = '''class _Monitor:
+    """Re-entrant monitor built on an 'idle' event."""
+
+    def __init__(self):
+        self._idle = threading.Event()
+        self._idle.set()
+        self._owner = None
+        self._depth = 0
+
+    def __enter__(self):
+        me = threading.get_ident()
+        if self._owner != me:
+            self._idle.wait()
+            self._idle.clear()
+            self._owner = me
+        self._depth += 1
+        return self
+
+    def __exit__(self, *exc):
+        self._depth -= 1
+        if self._depth == 0:
+            self._owner = None
+            self._idle.set()
+
+
+def _synchronized(method):
+'''
+
+MUTANTS += [
+    # needs the scheduler's cooperative Event: two threads may both pass
+    # wait() before either clears the flag (check-then-act)
+    {'id': 'c20-event-gate-check-then-act', 'props': ['C20'],
+     'edits': [(P, "def _synchronized(method):\n", EVENT_GATE),
+               (P, "        self._lock = threading.RLock()\n",
+                "        self._lock = _Monitor()\n")]},
+    {'id': 'c20-semaphore-two-permits', 'props': ['C20'], 'file': P,
+     'old': "        self._lock = threading.RLock()\n",
+     'new': "        self._lock = threading.Semaphore(2)\n"},
+]
